@@ -548,7 +548,27 @@ static void step(Ctx &c, Store &s, std::vector<Key> &pool) {
         c.label("assign:number-accepted");
       }
     } else {
-    if (via == 1) r = cvt(target)->assign(target, usep, val);
+    // a third of the remaining v-table assignments hands the text in as a character-vector SLICE (how mpt_parse_config,
+    // mpt_config_load and mpt_message_assign pass values): no terminator behind it - the slice is an exact-size heap block
+    // (one byte too many is an ASan report) or sits inside a larger buffer followed by non-zero bytes
+    bool slice = via == 1 && !v.empty() && strchr("w:= ", v[0]) != 0;
+    if (slice) {
+      bool exact = v.size() % 2 == 0;
+      size_t pre = exact ? 0 : 5, post = exact ? 0 : 9;
+      char *block = (char *)malloc(pre + v.size() + post);
+      memset(block, 'Z', pre + v.size() + post);
+      memcpy(block + pre, v.data(), v.size());
+      struct iovec vec = {block + pre, v.size()};
+      CObj<value> sv;
+      sv->_addr = &vec;
+      sv->_type = (type_t)MPT_type_toVector('c');
+      r = cvt(target)->assign(target, usep, sv);
+      free(block);
+      route = exact ? "v-table (character vector, exact-size block)" : "v-table (character vector inside a larger buffer)";
+      c.label("assign:char-vector-slice");
+      if (v.size() >= 250) c.label("assign:char-vector-slice-long");
+    }
+    else if (via == 1) r = cvt(target)->assign(target, usep, val);
     else if (viaEnviron) {
       std::string var = callstr + "=" + v;
       char *env[2] = {&var[0], 0};
